@@ -47,19 +47,21 @@ func H_C04_total() {
 	if c != nil && c2 != nil {
 		// exact comparison (float bit patterns), because the parser also reads the words nan / inf
 		verifAssert(hExact(hSnapAny(c), hSnapAny(c2)), "the same input gives the same container")
-		// what was consumed between the root brackets is well-formed UTF-8
+		// what was consumed between the root brackets is well-formed UTF-8. The end of the root container is
+		// found through the public API alone: it is the shortest prefix that is accepted.
 		start := len(pre)
 		if len(pre) == 1 && pre[0] == br[0] {
 			start = 0
 		}
-		line := 1
-		var pos int
-		if isList {
-			_, pos, _ = parseList(s[start:], &line)
-		} else {
-			_, pos, _ = parseObject(s[start:], &line)
+		end := len(s)
+		for k := start + 1; k < len(s); k++ {
+			pc, perr, pp := hParseAny(isList, s[:k])
+			if !pp && pc != nil && perr == nil {
+				end = k
+				break
+			}
 		}
-		verifAssert(utf8.ValidString(s[start:start+pos+1]), "an accepted document has no ill-formed UTF-8 between its root brackets")
+		verifAssert(utf8.ValidString(s[start:end]), "an accepted document has no ill-formed UTF-8 between its root brackets")
 	}
 	verifReach("end")
 }
